@@ -135,6 +135,13 @@ func buildForest(rng *vh.Rand) *forest {
 			return base - 1000, base - 10 // expired at base
 		case 2:
 			return base, base + 1 // one-second window
+		case 3:
+			// beyond what fits a 64-bit nanosecond count (years 2262 and later)
+			return 10_413_792_000 + int64(rng.Intn(1000)), 23_036_486_400 // 2300 .. 2700: not yet valid
+		case 4:
+			return base - int64(rng.Intn(1000)), 11_044_944_000 + int64(rng.Intn(1000)) // valid now, until 2320
+		case 5:
+			return base - 1000, 9_223_372_037 + int64(rng.Pick(-1, 0, 1, 2)) // expiry right at the nanosecond limit
 		default:
 			return base - int64(rng.Intn(1000)), base + 10 + int64(rng.Intn(1000))
 		}
